@@ -81,6 +81,11 @@ class DeleteEdge(BasicAction):
             val = tracks.get_edge_attr(edge, key)
             if val is not None:
                 self.attributes[key] = val
+        # ... and every other attribute stored on the edge (e.g. values of features that
+        # are currently disabled), so that the inverse restores the edge exactly
+        for key, val in self.tracks.graph.edges[edge].items():
+            if key not in self.attributes and val is not None:
+                self.attributes[key] = val
 
         self._apply()
 
